@@ -196,7 +196,8 @@ func (w *world) step(cycle bool, nodeChurn int) {
 	case k < 88:
 		q := int64(r.Range(1, 3))
 		w.queues[q] = true
-		w.emit(opT{Code: 7, A: []int64{q}})
+		// a version may change only spec.weight or only status.state (Open / Closed / Closing)
+		w.emit(opT{Code: 7, A: []int64{q, int64(r.Range(1, 3)), vh.Pick(r, []int64{1, 1, 1, 2, 3, 0})}})
 	case k < 90:
 		q := int64(r.Range(1, 3))
 		delete(w.queues, q)
@@ -241,8 +242,14 @@ func (w *world) prioStep() {
 func (w *world) cycleOp() {
 	r := w.r
 	switch r.Intn(10) {
-	case 0, 1:
+	case 0:
 		w.emit(opT{Code: 13})
+	case 1:
+		if r.Chance(1, 2) {
+			w.emit(opT{Code: 13})
+		} else { // the cycle closes: status of one of its jobs written back
+			w.emit(opT{Code: 17, A: []int64{1 + int64(r.Range(1, int(w.nJobs)))}})
+		}
 	case 2, 3, 4, 5, 6: // bind a pending pod (sometimes a wrong one)
 		id := int64(r.Range(1, int(w.nPods)))
 		for try := 0; try < 4; try++ {
@@ -379,7 +386,7 @@ func describe(ops []opT) any {
 		case 6:
 			out = append(out, fmt.Sprintf("delpg j%d", o.A[0]))
 		case 7:
-			out = append(out, fmt.Sprintf("queue %d", o.A[0]))
+			out = append(out, fmt.Sprintf("queue %d weight=%d state=%d", o.A[0], o.A[1], o.A[2]))
 		case 8:
 			out = append(out, fmt.Sprintf("delqueue %d", o.A[0]))
 		case 9:
@@ -395,6 +402,8 @@ func describe(ops []opT) any {
 			out = append(out, "snapshot+mutate")
 		case 14:
 			out = append(out, fmt.Sprintf("api-delete t%d (notification later)", o.A[0]))
+		case 17:
+			out = append(out, fmt.Sprintf("job-status-update j%d", o.A[0]))
 		case 15:
 			out = append(out, fmt.Sprintf("prio pc%d value=%d globalDefault=%v", o.Prio.ID, o.Prio.Value, o.Prio.Global))
 		case 16:
@@ -492,7 +501,7 @@ func gen(rng *vh.Rng, n int, emit func(id string, sel int, in []int64, kind stri
 	emit("oversubscription-annotation-removed", 1, encCase(orm), "fixed", true, describe(orm))
 	// a PodGroup that already carries conditions; the cycle refreshes them in its snapshot
 	pc := []opT{
-		{Code: 7, A: []int64{1}},
+		{Code: 7, A: []int64{1, 1, 1}},
 		{Code: 5, PG: cachectl.PGSpec{ID: 2, UID: 1, Queue: 1, Min: 1, Conds: 2, Ann: true}},
 		{Code: 1, Pod: cachectl.PodSpec{ID: 1, Job: 2, Phase: 1, Role: 1, CPU: 1000, Mem: 1 << 20}},
 		{Code: 13},
@@ -524,7 +533,7 @@ func gen(rng *vh.Rng, n int, emit func(id string, sel int, in []int64, kind stri
 	emit("bind-onto-placeholder-refused", 1, encCase(ph), "fixed", true, describe(ph))
 
 	// PriorityClass witnesses: a job without priorityClassName gets the default priority in Snapshot()
-	base := []opT{{Code: 7, A: []int64{1}}, {Code: 5, PG: cachectl.PGSpec{ID: 2, UID: 1, Queue: 1, Min: 1}},
+	base := []opT{{Code: 7, A: []int64{1, 1, 1}}, {Code: 5, PG: cachectl.PGSpec{ID: 2, UID: 1, Queue: 1, Min: 1}},
 		{Code: 5, PG: cachectl.PGSpec{ID: 3, UID: 2, Queue: 1, Min: 1, Class: 2}}}
 	fin := []opT{{Code: 10}, {Code: 9}}
 	pw := func(name string, mid ...opT) {
@@ -542,6 +551,16 @@ func gen(rng *vh.Rng, n int, emit func(id string, sel int, in []int64, kind stri
 	pw("prio-default-deleted", pcl(1, 10, true), pcl(2, 20, false), opT{Code: 16, A: []int64{1}})
 	pw("prio-non-default-global-deleted", pcl(2, 20, true), pcl(1, 10, true), opT{Code: 16, A: []int64{2}})
 
+	// a queue closed by a status-only update (same generation, same spec), then re-weighted by a spec-only update
+	qs := []opT{{Code: 7, A: []int64{2, 1, 1}}, {Code: 7, A: []int64{2, 1, 2}}, {Code: 7, A: []int64{2, 3, 2}}, {Code: 10}, {Code: 9}}
+	emit("queue-status-only-then-spec-only-update", 1, encCase(qs), "fixed", true, describe(qs))
+	// UpdateJobStatus between notifications: ledgers and membership untouched
+	js := []opT{{Code: 7, A: []int64{1, 1, 1}}, {Code: 5, PG: cachectl.PGSpec{ID: 2, UID: 1, Queue: 1, Min: 1, Ann: true}},
+		{Code: 1, Pod: cachectl.PodSpec{ID: 1, Job: 2, Phase: 1, Role: 1, CPU: 1000, Mem: 1 << 20}},
+		{Code: 17, A: []int64{2}}, {Code: 13}, {Code: 5, PG: cachectl.PGSpec{ID: 2, UID: 1, Queue: 1, Min: 2}}, {Code: 17, A: []int64{2}},
+		{Code: 10}, {Code: 9}}
+	emit("job-status-update", 1, encCase(js), "fixed", true, describe(js))
+
 	for i := 0; i < n; i++ {
 		r := rng.Fork()
 		w := newWorld(r)
@@ -556,8 +575,8 @@ func gen(rng *vh.Rng, n int, emit func(id string, sel int, in []int64, kind stri
 			kind = "prio-churn"
 			w.prioShare = 45
 			w.queues[1], w.queues[2] = true, true
-			w.emit(opT{Code: 7, A: []int64{1}})
-			w.emit(opT{Code: 7, A: []int64{2}})
+			w.emit(opT{Code: 7, A: []int64{1, 1, 1}})
+			w.emit(opT{Code: 7, A: []int64{2, 1, 1}})
 		case i%10 < 6:
 			// one job, PodGroup deleted and re-created (new uid) around pod adds / deletes, few drains:
 			// every branch of processCleanupJob (job gone, PgUID mismatch, not terminated => retry)
